@@ -8,16 +8,16 @@
 (* public operation is applied to whatever they return (harness `soup`).   *)
 (* The Api machine has no transition for "panicked" or "did not return".   *)
 (***************************************************************************)
-EXTENDS VersionText, TLC, Json
+EXTENDS RangeText, TLC, Json
 
 CONSTANTS MaxLen, Emit, Slice, Of
 
 B(s) == s
-Tokens == << <<48>>, <<49>>, <<57,48,48,55,49,57,57,50,53,52,55,52,48,57,57>>, <<57,48,48,55,49,57,57,50,53,52,55,52,49,48,48>>,
+TokList == << <<48>>, <<49>>, <<57,48,48,55,49,57,57,50,53,52,55,52,48,57,57>>, <<57,48,48,55,49,57,57,50,53,52,55,52,49,48,48>>,
              <<49,56,52,52,54,55,52,52,48,55,51,55,48,57,53,53,49,54,49,53>>, <<49,56,52,52,54,55,52,52,48,55,51,55,48,57,53,53,49,54,49,54>>,
              <<46>>, <<45>>, <<43>>, <<42>>, <<120>>, <<118>>, <<94>>, <<126>>, <<62>>, <<60>>, <<61>>, <<124>>, <<124,124>>,
              <<32>>, <<9>>, <<97>>, <<195,169>>, <<32,45,32>>, <<49,46,50,46,51>>, <<10>> >>
-NT == Len(Tokens)
+NT == Len(TokList)
 
 VARIABLES str, n, first
 vars == <<str, n, first>>
@@ -25,7 +25,7 @@ Init == str = <<>> /\ n = 0 /\ first = 0
 Next == /\ n < MaxLen
         /\ \E k \in 1..NT :
              /\ (n = 0 => k % Of = Slice % Of)     \* quick tier: only a seeded slice of first tokens
-             /\ str' = str \o Tokens[k]
+             /\ str' = str \o TokList[k]
              /\ first' = IF n = 0 THEN k ELSE first
         /\ n' = n + 1
         /\ (Emit => PrintT(<<"CASE", ToJson([op |-> "soup", text |-> str'])>>))
@@ -33,4 +33,11 @@ Spec == Init /\ [][Next]_vars
 
 \* the specification's own parser machine is total on every such string
 InvSpecTotal == VClassify(str).class \in {"must", "may", "reject"}
+\* ... and so is the byte-level range parser, and the meaning of whatever tree it determines
+InvRangeTextTotal ==
+  LET pr == ParseRangeText(str) IN
+  /\ pr.det \in BOOLEAN
+  /\ pr.det => /\ WfRange(pr.ast) \in BOOLEAN /\ NoValid(pr.ast) \in BOOLEAN /\ MayFail(pr.ast) \in BOOLEAN
+                /\ Means(pr.ast, MinV) \in BOOLEAN /\ Means(pr.ast, V3(One, <<2>>, <<3>>)) \in BOOLEAN
+                /\ RenderRange(pr.ast) \in Seq(0..255)
 =============================================================================
